@@ -334,7 +334,7 @@ def c07_case(draw):
     if desc == "property":
         params = []
     else:
-        params = draw(gs.signature())
+        params = draw(gs.signature(max_each=draw(st.sampled_from([2, 2, 5, 2]))))  # now and then a long signature (11+ parameters)
         if desc in ("method", "classmethod"):
             params = [p for p in params if p["name"] not in ("self", "cls")]
     case = {
